@@ -223,6 +223,12 @@ def defects(rng, rows, model):
     yield "inapplicable-property", rows[:1] + [["D", inapplicable[0], inapplicable[1]]] + rows[1:], 2, None
     yield "broken-property-value", rows[:1] + [["D", "Header", "minus one"]] + rows[1:], 2, None
     yield "negative-header", rows[:1] + [["D", "Header", "-1"]] + rows[1:], 2, None
+    if kind == "delimited":
+        for prop, bad in (("Skip initial space", "maybe"), ("Quoting", "some"), ("Quote character", "ab"), ("Escape character", "x"), ("Item delimiter", "ab"), ("Item delimiter", "(,")):
+            yield "broken-property-value:%s" % prop, rows[:1] + [["D", prop, bad]] + [r for r in rows[1:] if not (r[0] == "D" and r[1].lower() == prop.lower())], 2, None
+    if kind in ("delimited", "fixed"):
+        for prop, bad in (("Line delimiter", "newline"), ("Decimal separator", ";"), ("Thousands separator", "'"), ("Encoding", "no-such-encoding"), ("Allowed characters", "(32")):
+            yield "broken-property-value:%s" % prop, rows[:1] + [["D", prop, bad]] + [r for r in rows[1:] if not (r[0] == "D" and r[1].lower() == prop.lower())], 2, None
     if kind in ("delimited", "fixed"):
         base = [r for r in rows if not (r[0] == "D" and r[1] in ("Decimal separator", "Thousands separator"))]
         yield "contradicting-separators", base[:1] + [["D", "Decimal separator", ","], ["D", "Thousands separator", ","]] + base[1:], None, None
@@ -240,6 +246,8 @@ def defects(rng, rows, model):
             yield "bad-empty-mark:%s" % bad, variant(i, setcell(3, bad)), i + 1, None
         for bad in ("NoSuchType", "integer field", "Int", "1nteger", "Text."):
             yield "unknown-type:%s" % bad, variant(i, setcell(5, bad)), i + 1, None
+        for bad in ("(Text", "Text)", "'Text", "Text\"", "Te[xt"):
+            yield "untokenizable-type", variant(i, setcell(5, bad)), i + 1, None
         ftype = rows[i][5]
         if kind != "fixed":
             for bad in ("abc", "1...x", "1 2", "..."):
@@ -298,6 +306,11 @@ def defects(rng, rows, model):
                       ("undeclared-field-in-distinctcount-after-and", ["C", "new", "DistinctCount", names[0] + " < 0 and no_such_field > 1"]),
                       ("undeclared-field-in-distinctcount-conditional", ["C", "new", "DistinctCount", names[0] + " < 9 if True else no_such_field"]),
                       ("isunique-empty-rule", ["C", "new", "IsUnique", ""]),
+                      ("isunique-untokenizable-rule", ["C", "new", "IsUnique", "(" + names[0]]),
+                      ("isunique-untokenizable-rule", ["C", "new", "IsUnique", names[0] + ", '" + names[-1]]),
+                      ("distinctcount-untokenizable-rule", ["C", "new", "DistinctCount", names[0] + " < (3"]),
+                      ("distinctcount-untokenizable-rule", ["C", "new", "DistinctCount", names[0] + " < 0x"]),
+                      ("distinctcount-untokenizable-rule", ["C", "new", "DistinctCount", names[0] + " < '3"]),
                       ("isunique-double-comma", ["C", "new", "IsUnique", names[0] + ",," + names[-1]]),
                       ("isunique-missing-comma", ["C", "new", "IsUnique", names[0] + " " + names[-1]]),
                       ("isunique-duplicate-field", ["C", "new", "IsUnique", names[0] + ", " + names[0]]),
